@@ -33,6 +33,10 @@ Theorem C04_greedy_spec_takes_longest_prefix :
   forall M x G, greedy_spec M x = Some G -> GreedyCut M x G.
 Proof. exact greedy_spec_sound. Qed.
 
+Theorem C04_greedy_spec_total :
+  forall M x, 0 < M -> exists G, greedy_spec M x = Some G.
+Proof. exact greedy_spec_total. Qed.
+
 Theorem C04_greedy_spec_partitions_input :
   forall M x G, GreedyCut M x G -> concat G = x.
 Proof. exact GreedyCut_concat. Qed.
